@@ -313,8 +313,9 @@ Inductive event :=
 | EPut (forced : bool) (seen : delta)        (* a put on the real publish queue and what it carried *)
 | ECheck (data rep : store).                 (* a snapshot: the real store and the real client replica *)
 
-(* [rep] is the client replica kept incrementally: rep = replica (s_queue s)
-   (Proofs/StoreProofs.v: check_events_rep) *)
+(* [rep] is the client replica kept incrementally: every accepted put appends s_pub to
+   s_queue and applies it to rep (replica (q ++ [d]) = client_apply (replica q) d:
+   Proofs/StoreProofs.v, replica_snoc), so rep = replica (s_queue s) throughout *)
 Fixpoint check_events (s : mgr) (rep : store) (evs : list event) : bool :=
   match evs with
   | [] => negb (s_err s)
